@@ -221,6 +221,27 @@ CHECKS = {
               "terms together with rf are outside the documented domain."),
         technique="TLA+ run schedule + recurrence rule terms (TLC) applied by a generic evaluator; defining-relation residual for CDF",
     ),
+    "C07": dict(
+        cat="exploration",
+        text=("specs/ExpmInt.tla: the power-series DEFINITIONS of exp(Ah), int exp(At) dt, int t exp(At) dt and of P, Q / one hold step as "
+              "terms; the expmint algorithm as a state machine (Pade order from the eta/ell classes, scaling count, squaring phase with "
+              "the integral propagated on equal spans - TLC: SpanLaw, DoneOK, I2PadeUnless13, termination, 41k states); the case lattice 8 "
+              "structures (generic, singular, nilpotent 2/3, Jordan, upper triangular, stiff, oscillator state matrix) x 12 norm classes "
+              "1e-6..1e3 incl. both sides of the getEPQ switch x order x B x half (768 cases) with the predicted route. The definitions are "
+              "evaluated by the generic evaluator at 40+0.9||Ah|| digits; expmint, expmint_pow, getEPQ, getEPQ1, getEPQ2, getEPQ_pow are "
+              "compared with them (E, I1, I2, P, Q, one zoh/foh step), the Pade branch / I2 formula / route taken by the real code is "
+              "recorded and validated by TLC against specs/ExpmIntTrace.tla (every Pade order must be reached). specs/SSModel.tla: every "
+              "conversion history (c2d/d2c x zoh/zoha/foh/tustin x prewarp none/0/w, incl. calls on a model already in the target domain) "
+              "of length 2 (thorough 3) with its reduction (inverse pairs cancel in either direction): final model = reduced history "
+              "replayed; each method's discrete matrices vs terms; exactly sampled response under the method's hold; tustin transfer "
+              "function = bilinear transform at 5-6 points of the unit circle incl. the prewarp frequency."),
+        ref="4/C07",
+        note=("Trusted: TLC, mpmath, the generic term evaluator. Tolerance = 10 x (measured change of the exact result under a 64-ulp "
+              "dense relative perturbation of A + 40 ulp): loss of 1-2 digits beyond that is not detected; comparisons whose sensitivity "
+              "exceeds 1e-9 relative are skipped and counted. One genuine defect repaired (nilpotent A, fix: 93514af); two known findings "
+              "(I2 with Pade 13 for singular / ill-conditioned A, direct expmint/getEPQ1 calls only)."),
+        technique="TLA+ algorithm machine + series-definition terms (TLC) evaluated at high precision against every variant; TLC trace validation of recorded branch events; conversion histories replayed",
+    ),
     "C03": dict(
         cat="exploration",
         text=("specs/Srs.tla: the option lattice 6 stype x 4 ic x 3 time x 6 peak x eqsine (864 points), the integer index model "
